@@ -225,8 +225,10 @@ type C01Plan struct {
 	Recs   []SeqRec `json:"recs"`
 	// SeqPrefix != "": FASTA writer and reader are both configured with this
 	// sequence-line prefix (a public field of both; GFF uses "##").
-	SeqPrefix string         `json:"seq_prefix,omitempty"`
-	Delivery  simio.Delivery `json:"delivery"`
+	SeqPrefix string `json:"seq_prefix,omitempty"`
+	// TemplateCap > 0: the reader's template is empty but preallocated.
+	TemplateCap int            `json:"template_cap,omitempty"`
+	Delivery    simio.Delivery `json:"delivery"`
 	// WriteFault > 0: additionally write the records to a medium that fails
 	// after WriteFault-1 bytes (0 = no write-fault pass).
 	WriteFault int `json:"write_fault,omitempty"`
@@ -326,6 +328,9 @@ func genC01(r *simrt.RNG) *Case {
 		pl.Qual = r.Intn(8) != 0
 		pl.Recs = genSeqRecs(r, pl.Alpha, pl.Qual, enc)
 	}
+	if r.Intn(6) == 0 {
+		pl.TemplateCap = r.Pick(1, 16, 1024, 5000)
+	}
 	if r.Intn(3) == 0 {
 		pl.WriteFault = 1 + r.Intn(1<<20)
 		if r.Bool() {
@@ -360,9 +365,17 @@ func buildSeq(rec SeqRec, pl *C01Plan) seq.Sequence {
 func seqTemplate(pl *C01Plan) seqio.SequenceAppender {
 	alpha := alphaOf[pl.Alpha]
 	if pl.Qual {
-		return linear.NewQSeq("", nil, alpha, alphabet.Encoding(pl.Enc))
+		t := linear.NewQSeq("", nil, alpha, alphabet.Encoding(pl.Enc))
+		if pl.TemplateCap > 0 {
+			t.Seq = make(alphabet.QLetters, 0, pl.TemplateCap) // an empty template with room to grow
+		}
+		return t
 	}
-	return linear.NewSeq("", nil, alpha)
+	t := linear.NewSeq("", nil, alpha)
+	if pl.TemplateCap > 0 {
+		t.Seq = make(alphabet.Letters, 0, pl.TemplateCap)
+	}
+	return t
 }
 
 // writeSeqs writes the records through the real writer into a Sink and checks
@@ -618,7 +631,7 @@ func runC01(t *testing.T, c *Case, o RunOpts) *Result {
 		v = compareSeqs(&pl, got)
 	}
 	if v == nil && pl.WriteFault > 0 && len(text) > 0 {
-		sink := &simio.Sink{Faulty: true, FailAt: (pl.WriteFault - 1) % len(text)}
+		sink := &simio.Sink{Faulty: true, FailAt: (pl.WriteFault - 1) % len(text), FailFull: pl.WriteFault%3 == 0}
 		res.Fired = append(res.Fired, simrt.IORecord{Kind: "write-fails-at-byte"})
 		if pv := guard(func() { _, _, v = writeSeqsTo(&pl, sink) }); pv != nil {
 			v = pv
